@@ -1159,6 +1159,11 @@ namespace cds { namespace intrusive {
                         return true;
                     }
                 }
+                else if ( slot.bits() != 0 ) {
+                    // The slot has been converted (or is converting) to array node, so the item has been moved down the tree.
+                    // Erase it by its hash checking that it is the same item the iterator points to
+                    return unlink( *iter.pointer());
+                }
                 else
                     return false;
             }
